@@ -67,3 +67,956 @@ def build_exe(stage):
     exe = stage.link_like("tests/testURL", objs + [weak], os.path.join(stage.work, "c20"), drop=("tests/stub_libhttp.o",))
     built["c20"] = exe
     return exe
+
+
+RULE = ("S: scenario = a sequence of client requests through the rebuilt squid: GET/HEAD (fresh cacheable replies, optionally Vary: X) and "
+        "forwarded requests with any registered or unknown method x origin status x Location/Content-Location (absent, relative path, "
+        "absolute path, network path, absolute same-host in exact/other spelling, other host, other port) x request host spelling; observed per "
+        "step: origin contacted (contact number) or which earlier origin reply came back from the cache. P/H/R/A: the real "
+        "maybePurgeOthers/purgeEntriesByHeader/purgeEntriesByUrl/sameUrlHosts/urlIsRelative/addRelativePath text in-process (ASan/UBSan): "
+        "evicted keys in order. non-trivial = S with a cache hit before and a request after an invalidating request, P with a purging "
+        "method and status < 400, H/R/A always; distinct = distinct lines")
+TRUSTED = ["modelled, not verified: Comm I/O, request/reply parsing (tied by other properties), freshness (every stored reply is fresh for an "
+           "hour), MD5 (a key is modelled as its preimage), the vary mark (opaque injective function of the request, C13's subject), "
+           "memory-cache replacement (no eviction at this size), HTCP CLR notifications, collapsed forwarding/SMP",
+           "harness/c20.cc compiles the verbatim staged text of the four functions against stand-ins for HttpRequest/HttpReply/Store::Root "
+           "(the stand-in's effectiveRequestUri replicates the 3-line original); the S scenarios run the real thing inside squid"]
+ASSUMPTIONS = ["default configuration (memory cache, neighbors_do_private_keys = 1, no cache_peer, relaxed parser), http/https request URLs, "
+               "one client at a time per scenario, header values without NUL"]
+MANIFEST = {
+    "engine": "e2e",
+    "text": "partial: for every history of client requests (any length, any interleaving of GET/HEAD and forwarded requests, Vary or not) of the "
+            "store model: once a request with a purging method got a reply with status < 400, no later hit for a URL it purged returns a "
+            "reply stored before it, provided no Vary variant of that URL was in the store at that moment (purged_url_never_served_stale_partial; "
+            "without the proviso false: vary_variant_survives_counterexample, confirmed end to end). The purged URLs always include the "
+            "request's own URL (request_url_purged), a Location/Content-Location that starts with / (absolute_path_location_purged) and an "
+            "absolute one that passes sameUrlHosts in exactly the text given (same_host_location_purged_exact); sameUrlHosts accepts only "
+            "equal authority texts (sameUrlHosts_sound: other hosts are never purged). A relative-path Location is not purged in this tree "
+            "because addRelativePath leaves the memoised absolute form in place (relative_location_counterexample under the regenerated "
+            "flag; relative_location_purged once the flag flips; fix diff in notes/fixes). The model (purgesOthers/respMaybeCacheable tables, "
+            "PathChars, sameUrlHosts, urlIsRelative, addRelativePath/absolute with the memo, purgeEntriesByUrl/Header, maybePurgeOthers, "
+            "METHOD_OTHER purge at request time, hit path with Vary dispatch, setPublicKey/adjustVary/httpMaybeRemovePublic) is tied to the "
+            "verbatim staged functions in-process under ASan and to the rebuilt binary by scenario correspondence; not exhibited by the "
+            "model: socket I/O, freshness arithmetic, MD5, eviction, concurrency, HTCP",
+    "note": "trusted: Lean kernel, python rig (origin/client stubs), loopback TCP; not modelled: see text",
+    "technique": "Lean 4 proof (induction over histories with a store invariant) + translator + in-process ASan differential run + "
+                 "end-to-end scenario correspondence with a direct oracle",
+}
+
+NOMINAL_PORT = "8000"
+NOMINAL_SEG = "sq0"
+HOSTS = {"0": "127.0.0.1", "1": "localhost", "2": "LOCALHOST", "3": "LocalHost"}
+PATH_SET = set(b"/:@-._~%!$&'()*+,;=" + bytes(range(65, 91)) + bytes(range(97, 123)) + bytes(range(48, 58)))
+# RFC 9110 9.2.1 / IANA registry "safe = yes"; everything else (unknown methods included) is unsafe
+SAFE_METHODS = {"GET", "HEAD", "OPTIONS", "TRACE", "PROPFIND", "REPORT", "SEARCH", "PRI"}
+
+
+def subst(b, port, seg):
+    return b.replace(b"{O}", b"127.0.0.1:" + port.encode()).replace(b"{P}", port.encode()).replace(b"{S}", seg.encode())
+
+
+# ---------------------------------------------------------------------------------------------- RFC 3986 (for the oracle only)
+
+def split_ref(r):
+    """RFC 3986 appendix B -> (scheme, authority, path, query, fragment); None for undefined components"""
+    m = re.match(rb"^(([^:/?#]+):)?(//([^/?#]*))?([^?#]*)(\?([^#]*))?(#(.*))?", r, re.S)
+    return m.group(2), m.group(4), m.group(5), m.group(7), m.group(9)
+
+
+def remove_dots(path):
+    out = []
+    inp = path
+    while inp:
+        if inp.startswith(b"../"):
+            inp = inp[3:]
+        elif inp.startswith(b"./"):
+            inp = inp[2:]
+        elif inp.startswith(b"/./"):
+            inp = inp[2:]
+        elif inp == b"/.":
+            inp = b"/"
+        elif inp.startswith(b"/../"):
+            inp = inp[3:]
+            if out:
+                out.pop()
+        elif inp == b"/..":
+            inp = b"/"
+            if out:
+                out.pop()
+        elif inp in (b".", b".."):
+            inp = b""
+        else:
+            i = inp.find(b"/", 1)
+            seg = inp if i == -1 else inp[:i]
+            out.append(seg)
+            inp = inp[len(seg):]
+    return b"".join(out)
+
+
+def resolve(base, ref):
+    """RFC 3986 5.2.2 strict -> (scheme, authority, path, query) without the fragment"""
+    bs, ba, bp, bq, _ = split_ref(base)
+    rs, ra, rp, rq, _ = split_ref(ref)
+    if rs is not None:
+        return rs, ra, remove_dots(rp), rq
+    if ra is not None:
+        return bs, ra, remove_dots(rp), rq
+    if rp == b"":
+        return bs, ba, bp, (rq if rq is not None else bq)
+    if rp.startswith(b"/"):
+        return bs, ba, remove_dots(rp), rq
+    if ba is not None and bp == b"":
+        merged = b"/" + rp
+    else:
+        merged = bp[:bp.rfind(b"/") + 1] + rp
+    return bs, ba, remove_dots(merged), rq
+
+
+def normalise(parts):
+    """(scheme, authority, path, query) -> comparable identity of an http(s) resource, or None when it has no host"""
+    s, a, p, q = parts
+    if s is None or a is None:
+        return None
+    s = s.lower()
+    if s not in (b"http", b"https"):
+        return None
+    if b"@" in a:
+        a = a[a.rfind(b"@") + 1:]
+    host, port = a, None
+    m = re.match(rb"^(.*):([0-9]*)$", a, re.S)
+    if m:
+        host, port = m.group(1), m.group(2)
+    if host == b"":
+        return None
+    dflt = b"80" if s == b"http" else b"443"
+    if not port:
+        port = dflt
+    port = port.lstrip(b"0") or b"0"
+    return (s, host.lower(), port, p or b"/", q)
+
+
+# ---------------------------------------------------------------------------------------------- end-to-end harness
+
+def parse_steps(line):
+    """-> list of dicts or None"""
+    toks = line.split(" ")
+    if toks[0] != "S" or len(toks) < 2:
+        return None
+    steps = []
+    try:
+        for t in toks[1:]:
+            f = t.split("/")
+            if f[0] in ("G", "H") and len(f) == 5 and f[1] in HOSTS and f[4] in ("0", "1"):
+                steps.append({"k": f[0], "h": f[1], "path": unhx(f[2]), "x": None if f[3] == "." else unhx(f[3]), "v": f[4] == "1"})
+            elif f[0] == "U" and len(f) == 7 and f[2] in HOSTS and re.fullmatch(r"[A-Za-z_-]+", f[1]):
+                steps.append({"k": "U", "m": f[1], "h": f[2], "path": unhx(f[3]), "status": int(f[4]),
+                              "loc": None if f[5] == "." else unhx(f[5]), "cloc": None if f[6] == "." else unhx(f[6])})
+            else:
+                return None
+    except (ValueError, IndexError):
+        return None
+    return steps
+
+
+def step_url(st, port, seg):
+    return b"http://" + HOSTS[st["h"]].encode() + b":" + port.encode() + b"/" + seg.encode() + b"/" + st["path"]
+
+
+class E2E:
+    def __init__(self, stage):
+        from e2e import rig
+        self.rig = rig
+        self.origin = rig.Origin()
+        self.squid = None
+        last = None
+        for attempt in range(6):
+            try:
+                self.squid = rig.Squid(stage, conf="").start(wait=90)
+                break
+            except RuntimeError as e:
+                last = e
+                time.sleep(1.0)
+        if self.squid is None:
+            raise last
+        self.n = 0
+        self.lock = threading.Lock()
+        self.plans = {}
+
+    def handler(self, req):
+        rig = self.rig
+        plan = self.plans.get(req["sid"])
+        n = req["n"]
+        if plan is None:
+            return [("send", rig.simple_response(500, b"no plan"))]
+        st, port, seg = plan
+        hs = [("X-Gen", str(n))]
+        if st["k"] in ("G", "H"):
+            hs.append(("Cache-Control", "max-age=3600"))
+            if st["v"]:
+                hs.append(("Vary", "X"))
+            body = b"gen%d" % n
+            resp = rig.simple_response(200, body, hs)
+            if st["k"] == "H":
+                resp = resp[:resp.index(b"\r\n\r\n") + 4]
+            return [("send", resp)]
+        for name, key in (("Location", "loc"), ("Content-Location", "cloc")):
+            if st[key] is not None:
+                hs.append((name, subst(st[key], port, seg).decode("latin-1")))
+        status = st["status"]
+        if status in (204, 205, 304) or status < 200:
+            return [("send", rig.simple_response(status, b"", hs, cl=False) if status in (204, 304) else rig.simple_response(status, b"", hs))]
+        return [("send", rig.simple_response(status, b"u%d" % n, hs))]
+
+    def once(self, steps):
+        rig = self.rig
+        with self.lock:
+            self.n += 1
+            sid = "q%d" % self.n
+        seg = "s" + sid
+        port = str(self.origin.port)
+        self.origin.on(sid, self.handler)
+        out = []
+        for st in steps:
+            self.plans[sid] = (st, port, seg)
+            before = len(self.origin.requests(sid))
+            url = step_url(st, port, seg).decode("latin-1")
+            if st["k"] in ("G", "H"):
+                hdrs = [("X", st["x"].decode("latin-1"))] if st["x"] is not None else []
+                r = rig.get(self.squid.port, url, headers=hdrs, method="GET" if st["k"] == "G" else "HEAD")
+            else:
+                r = rig.get(self.squid.port, url, method=st["m"], body=b"x")
+            after = len(self.origin.requests(sid))
+            if r is None:
+                out.append("none")
+                continue
+            gen = rig.hget(r["hdrs"], "x-gen", "?")
+            if st["k"] in ("G", "H"):
+                if r["status"] != 200:
+                    out.append("status%d" % r["status"])
+                elif after == before:
+                    out.append("c" + gen)
+                elif after == before + 1:
+                    out.append("o" + gen)
+                else:
+                    out.append("o%s+%d" % (gen, after - before - 1))
+            else:
+                if after == before + 1:
+                    out.append("o%s:%d" % (gen, r["status"]))
+                else:
+                    out.append("local%d:%d" % (after - before, r["status"]))
+        self.plans.pop(sid, None)
+        return "S " + " ".join(out)
+
+    def one(self, line):
+        steps = parse_steps(line)
+        if steps is None:
+            return "bad-op"
+        obs = None
+        for attempt in range(3):      # flake guard: an observation the property rejects must repeat
+            obs = self.once(steps)
+            if oracle(line, obs) is None:
+                return obs
+        return obs
+
+    def run(self, lines):
+        rig = self.rig
+        with ThreadPoolExecutor(max_workers=6) as ex:
+            return list(ex.map(rig.guarded(self.one, [self.squid]), lines))
+
+    def close(self):
+        if self.squid is not None:
+            self.squid.stop()
+        self.origin.close()
+
+
+class Harness:
+    """S lines -> staged squid; every other line -> the in-process executable"""
+
+    def __init__(self, stage):
+        self.proc = ProcHarness([build_exe(stage)], env={"ASAN_OPTIONS": "detect_leaks=0", "UBSAN_OPTIONS": "print_stacktrace=0:halt_on_error=1"})
+        self.stage = stage
+        self.e2e = None
+        self.crashes = 0
+
+    def run(self, lines):
+        out = [None] * len(lines)
+        si = [i for i, l in enumerate(lines) if l.startswith("S ")]
+        pi = [i for i, l in enumerate(lines) if not l.startswith("S ")]
+        if pi:
+            for i, o in zip(pi, self.proc.run([lines[i] for i in pi])):
+                out[i] = o
+            self.crashes = self.proc.crashes
+        if si:
+            if self.e2e is None:
+                self.e2e = E2E(self.stage)     # started from the main thread
+            for i, o in zip(si, self.e2e.run([lines[i] for i in si])):
+                out[i] = o
+        return out
+
+    def close(self):
+        if self.e2e is not None:
+            self.e2e.close()
+            self.e2e = None
+
+
+def build(stage):
+    return Harness(stage)
+
+
+# ---------------------------------------------------------------------------------------------- the direct oracle
+
+def invalidating(method):
+    """RFC 9111 4.4: unsafe methods, including methods whose safety is unknown"""
+    return method not in SAFE_METHODS
+
+
+def header_targets(base, loc, cloc):
+    """[(relation, identity)] of the same-host URLs named by Location / Content-Location of a reply to a request for `base`"""
+    me = normalise(resolve(base, b""))
+    out = []
+    for rel, v in (("loc", loc), ("cloc", cloc)):
+        if v is None:
+            continue
+        t = normalise(resolve(base, v))
+        if t is not None and me is not None and t[:3] == me[:3]:
+            out.append((rel, t))
+    return out
+
+
+def oracle_s(line, impl):
+    steps = parse_steps(line)
+    if steps is None:
+        return None if impl == "bad-op" else "scenario line not understood but answered"
+    if not impl.startswith("S "):
+        return "no usable observation: " + impl[:80]
+    obs = impl.split(" ")[1:]
+    if len(obs) != len(steps):
+        return "no usable observation: step count"
+    inval = {}     # identity -> list of (contact, relation, step index)
+    contact = {}   # contact number -> identity
+    for i, (st, ob) in enumerate(zip(steps, obs)):
+        url = step_url(st, NOMINAL_PORT, NOMINAL_SEG)
+        me = normalise(resolve(url, b""))
+        if st["k"] in ("G", "H"):
+            m = re.fullmatch(r"([oc])(\d+)", ob)
+            if not m:
+                return "no usable observation: step %d %s" % (i, ob)
+            g = int(m.group(2))
+            if m.group(1) == "o":
+                contact[g] = me
+                continue
+            if contact.get(g) != me:
+                return "step %d: served a reply the origin never gave for this URL" % i
+            for (c, rel, j) in reversed(inval.get(me, [])):
+                if g < c:
+                    return ("step %d: the cache served the reply of origin contact %d although the %s request of step %d (contact %d, status %d) "
+                            "invalidated it [rel=%s step=%d served=%d]" % (i, g, steps[j]["m"], j, c, steps[j]["status"], rel, j, g))
+        else:
+            m = re.fullmatch(r"o(\d+):(\d+)", ob)
+            if not m:
+                return "no usable observation: step %d %s" % (i, ob)
+            if int(m.group(2)) != st["status"]:
+                return "no usable observation: step %d status %s relayed for %d" % (i, m.group(2), st["status"])
+            c = int(m.group(1))
+            if invalidating(st["m"]) and st["status"] < 400:
+                loc = None if st["loc"] is None else subst(st["loc"], NOMINAL_PORT, NOMINAL_SEG)
+                cloc = None if st["cloc"] is None else subst(st["cloc"], NOMINAL_PORT, NOMINAL_SEG)
+                for rel, t in [("self", me)] + header_targets(url, loc, cloc):
+                    inval.setdefault(t, []).append((c, rel, i))
+    return None
+
+
+def canon_text(ident):
+    """the text squid keys the resource under: scheme://host[:non-default port]Encode(path[?query], PathChars)"""
+    s, host, port, p, q = ident
+    a = host if port == (b"80" if s == b"http" else b"443") else host + b":" + port
+    pq = p + (b"?" + q if q is not None else b"")
+    enc = b"".join(bytes([c]) if c in PATH_SET else b"%%%02X" % c for c in pq)
+    return s + b"://" + a + enc
+
+
+def p_fields(line):
+    w = line.split(" ")
+    if len(w) != 9 or w[0] != "P":
+        return None
+    try:
+        return {"m": w[1], "status": int(w[2]), "scheme": w[3], "host": unhx(w[4]), "port": w[5], "path": unhx(w[6]),
+                "loc": None if w[7] == "." else unhx(w[7]), "cloc": None if w[8] == "." else unhx(w[8])}
+    except ValueError:
+        return None
+
+
+def p_base(f):
+    return f["scheme"].encode() + b"://" + f["host"] + (b"" if f["port"] == "-" else b":" + f["port"].encode()) + f["path"]
+
+
+def parse_evict(impl):
+    if not impl.startswith("evict="):
+        return None
+    body = impl[6:]
+    if body == "-":
+        return []
+    out = []
+    for tok in body.split(","):
+        a, b = tok.split(":")
+        out.append((int(a), unhx(b)))
+    return out
+
+
+def oracle_p(line, impl):
+    f = p_fields(line)
+    if f is None:
+        return None if impl == "bad-op" else "line not understood but answered"
+    if impl in ("bad-components", "bad-op"):
+        return None
+    ev = parse_evict(impl)
+    if ev is None:
+        return "no usable observation: " + impl[:80]
+    base = p_base(f)
+    me = normalise(resolve(base, b""))
+    if me is None:
+        return None
+    # never another host
+    for (mid, u) in ev:
+        t = normalise(resolve(u, b""))
+        if t is not None and t[1] != me[1] and f["m"] != "CONNECT":
+            return "purged a URL of another host: %r" % u
+    if not (invalidating(f["m"]) and f["status"] < 400) or f["m"] in ("CONNECT",):
+        return None
+    want = [("self", me)] + header_targets(base, f["loc"], f["cloc"])
+    for rel, t in want:
+        key = canon_text(t)
+        for mid in (1, 4):          # GET, HEAD
+            if (mid, key) not in ev:
+                return "the %s key %r is not evicted [rel=%s]" % ("GET" if mid == 1 else "HEAD", key, rel)
+    return None
+
+
+def authority_text(u):
+    i = u.find(b":")
+    if i < 0:
+        return None
+    r = u[i + 1:].lstrip(b"/")
+    j = r.find(b"/")
+    return r if j < 0 else r[:j]
+
+
+def oracle(line, impl):
+    if impl is None:
+        return "no output"
+    if impl.startswith("abort"):
+        return "no usable observation: " + impl[:100]
+    k = line[:1]
+    if k == "S":
+        return oracle_s(line, impl)
+    if k == "P":
+        return oracle_p(line, impl)
+    w = line.split(" ")
+    try:
+        if k == "H" and len(w) == 3:
+            a, b = unhx(w[1]), unhx(w[2])
+            if impl == "bad-op":
+                return None if (0 in a or 0 in b) else "rejected"
+            if impl == "same=1":
+                if authority_text(a) != authority_text(b) or not authority_text(a):
+                    return "sameUrlHosts accepts different hosts"
+            elif impl == "same=0":
+                m1 = re.fullmatch(rb"[a-z]+://([^/:@?#]+(:[0-9]+)?)/[^\x00]*", a, re.S)
+                m2 = re.fullmatch(rb"[a-z]+://([^/:@?#]+(:[0-9]+)?)/[^\x00]*", b, re.S)
+                if m1 and m2 and m1.group(1) == m2.group(1):
+                    return "sameUrlHosts refuses two URLs with the same authority text"
+            else:
+                return "no usable observation: " + impl[:60]
+        elif k == "R" and len(w) == 2:
+            a = unhx(w[1])
+            if impl == "bad-op":
+                return None if 0 in a else "rejected"
+            first = re.split(rb"[/?#]", a, maxsplit=1)[0]
+            want = "rel=0" if b":" in first else "rel=1"
+            if impl != want:
+                return "urlIsRelative: %s for a reference %s a colon in its first segment" % (impl, "with" if b":" in first else "without")
+        elif k == "A" and len(w) == 6:
+            if impl in ("bad-op", "bad-components"):
+                return None
+            # RFC 3986 5.2.3 merge without dot-segment removal, as the function documents
+            host, path, rel = unhx(w[2]), unhx(w[4]), unhx(w[5])
+            ident = normalise(resolve(w[1].encode() + b"://" + host + (b"" if w[3] == "-" else b":" + w[3].encode()) + b"/", b""))
+            if ident is None:
+                return None
+            cut = path.rfind(b"/")
+            merged = (b"/" if cut < 0 else path[:cut + 1]) + rel
+            want = canon_text((ident[0], ident[1], ident[2], merged, None))
+            if impl != "abs=" + hx(want):
+                return "addRelativePath + absolute() does not give the merged URL [rel=addrel]"
+    except ValueError:
+        return None if impl == "bad-op" else "line not understood but answered"
+    return None
+
+
+def compare(line, impl, model):
+    if impl == "bad-components":
+        return True      # outside the canonical request components: the real parser rewrote them
+    return impl == model
+
+
+# ---------------------------------------------------------------------------------------------- findings
+
+def has_dot_segments(v):
+    path = re.split(rb"[?#]", v, maxsplit=1)[0]
+    return any(seg in (b".", b"..") for seg in path.split(b"/"))
+
+
+def classify_value(base, v):
+    """why a Location value naming a same-host URL is not purged; None = no known reason"""
+    if v is None:
+        return None
+    rs, ra, rp, rq, rf = split_ref(v)
+    bs, ba, bp, bq, _ = split_ref(base)
+    if rs is None and ra is None:
+        if v.startswith(b"/"):
+            if has_dot_segments(v) or rf is not None:
+                return "C20-location-spelling-not-purged"
+            return None
+        # relative-path reference (or empty / query-only / fragment-only)
+        if rp == b"" and rq is None:
+            return None                                        # same document: the request URL itself
+        if has_dot_segments(v) or rf is not None or (bq is not None and b"/" in bq):
+            return "C20-location-spelling-not-purged"         # no dot-segment removal, fragment kept, rfind('/') inside the query
+        return "C20-relative-location-not-purged"
+    if rs is None:
+        return "C20-location-spelling-not-purged"             # network-path reference
+    t = normalise(resolve(base, v))
+    if t is None:
+        return None
+    if canon_text(t) != v:
+        return "C20-location-spelling-not-purged"             # scheme/host case, default port, fragment, dot segments, ?query
+    return None
+
+
+def classify(line, impl, why):
+    if not why or "no usable observation" in why:
+        return None
+    m = re.search(r"\[rel=(\w+)( step=(\d+) served=(\d+))?\]", why)
+    if not m:
+        return None
+    rel = m.group(1)
+    if line.startswith("A "):
+        return "C20-relative-location-not-purged" if rel == "addrel" else None
+    if line.startswith("P "):
+        f = p_fields(line)
+        if rel == "self":
+            return "C20-copy-lock-unlock-not-invalidating" if f["m"] in ("COPY", "LOCK", "UNLOCK") else None
+        if f["m"] in ("COPY", "LOCK", "UNLOCK"):
+            return "C20-copy-lock-unlock-not-invalidating"
+        return classify_value(p_base(f), f[rel])
+    if line.startswith("S "):
+        steps = parse_steps(line)
+        st = steps[int(m.group(3))]
+        served = int(m.group(4))
+        if st["m"] in ("COPY", "LOCK", "UNLOCK"):
+            return "C20-copy-lock-unlock-not-invalidating"
+        # which step produced the served reply?
+        obs = impl.split(" ")[1:]
+        src = [steps[i] for i, o in enumerate(obs) if o == "o%d" % served]
+        if src and src[0]["k"] in ("G", "H") and src[0]["v"]:
+            return "C20-vary-variants-survive"
+        if rel == "self":
+            return None
+        v = subst(st[rel], NOMINAL_PORT, NOMINAL_SEG)
+        return classify_value(step_url(st, NOMINAL_PORT, NOMINAL_SEG), v)
+    return None
+
+
+# ---------------------------------------------------------------------------------------------- generators
+
+REGISTERED = ["GET", "POST", "PUT", "HEAD", "CONNECT", "TRACE", "OPTIONS", "DELETE", "LINK", "UNLINK", "CHECKOUT", "CHECKIN", "UNCHECKOUT",
+              "MKWORKSPACE", "VERSION-CONTROL", "REPORT", "UPDATE", "LABEL", "MERGE", "BASELINE-CONTROL", "MKACTIVITY", "PROPFIND",
+              "PROPPATCH", "MKCOL", "COPY", "MOVE", "LOCK", "UNLOCK", "SEARCH", "PRI", "PURGE"]
+UNKNOWN = ["PATCH", "FOO", "BREW", "METHOD_OTHER", "get", "Post"]
+E2E_METHODS = [m for m in REGISTERED if m not in ("GET", "HEAD", "CONNECT", "PURGE", "PRI", "TRACE")] + ["PATCH", "FOO", "BREW"]
+KNOWN_QUIET = ("COPY", "LOCK", "UNLOCK")
+STATUSES = [200, 201, 202, 203, 204, 206, 226, 299, 300, 301, 302, 303, 307, 308, 399, 400, 401, 403, 404, 405, 409, 410, 418, 499, 500, 502, 503, 599]
+SUFFIXES = [b"a", b"d/a", b"d/e/a", b"d/", b"", b"a.html", b"d/a?x=1", b"d/a?x=/y", b"a;p=1", b"d/a%20b", b"d/~u/a", b"d/A"]
+
+
+def p_line(m, status, scheme, host, port, path, loc, cloc):
+    return "P %s %d %s %s %s %s %s %s" % (m, status, scheme, hx(host), port, hx(path), "." if loc is None else hx(loc), "." if cloc is None else hx(cloc))
+
+
+def path_gen(rng):
+    k = rng.below(10)
+    if k < 4:
+        return b"/" + rng.choice(SUFFIXES)
+    if k == 4:
+        return b"/"
+    if k == 5:
+        return b"/" + rng.bytes(rng.range(1, 12), b"abcXYZ019/._-~?=&%:@+,;")
+    if k == 6:
+        return b"/" + b"/".join(rng.bytes(rng.range(0, 4), b"ab.") for _ in range(rng.range(1, 5)))
+    if k == 7:
+        return b"/x" * rng.choice([1, 50, 500, 2000])
+    if k == 8:
+        return b"/q?" + rng.bytes(rng.range(0, 8), b"ab/=&?")
+    return b"/" + rng.bytes(rng.range(1, 6), bytes(c for c in range(33, 127) if c != 35))     # no '#': not part of a request target
+
+
+def host_gen(rng):
+    return rng.choice([b"h.example", b"a", b"127.0.0.1", b"www.example.com", b"x-1.example.org", b"h", b"a.b.c.d.e", b"example.com"])
+
+
+def authority_of(scheme, host, port):
+    d = "80" if scheme == "http" else "443"
+    return host if port in ("-", d) else host + b":" + port.encode()
+
+
+def header_value(rng, scheme, host, port, path):
+    """one Location/Content-Location value for a request to scheme://host:port path"""
+    auth = authority_of(scheme, host, port)
+    exact = scheme.encode() + b"://" + auth
+    tpath = rng.choice([b"/t", b"/d/b", path, b"/", b"/d/b?x=1", b"/a%20b", b"/d/./b", b"/d/../b"])
+    k = rng.below(22)
+    if rng.chance(1, 2):
+        k = rng.choice([0, 4, 5, 7, 8, 9, 14, 15])     # half of the values: absent / absolute path / exact spelling / other host
+    if k == 0:
+        return None
+    if k == 1:
+        return rng.choice([b"b", b"b/c", b"t.html", b"b?x=1", b"x;y", b"b%20c"])                       # relative path
+    if k == 2:
+        return rng.choice([b"./b", b"../b", b"../../b", b".", b"..", b"b/../c", b"./", b"b/."])           # with dot segments
+    if k == 3:
+        return rng.choice([b"", b"?q=1", b"#f", b"?", b"#", b"b#f"])
+    if k in (4, 5):
+        return tpath                                                                                     # absolute path
+    if k == 6:
+        return b"//" + auth + tpath                                                                      # network path
+    if k in (7, 8, 9):
+        return exact + tpath                                                                             # absolute, exact spelling
+    if k == 10:
+        return exact.upper() + tpath if rng.chance(1, 2) else scheme.upper().encode() + b"://" + auth + tpath
+    if k == 11:
+        d = "80" if scheme == "http" else "443"
+        return scheme.encode() + b"://" + host + b":" + (d if port in ("-", d) else port.lstrip("0") and "0" + port).encode() + tpath
+    if k == 12:
+        return exact + tpath + b"#frag"
+    if k == 13:
+        return rng.choice([exact, exact + b"?q", scheme.encode() + b"://u@" + auth + tpath, scheme.encode() + b"://" + host + b"." + tpath])
+    if k == 14:                                                                                          # other hosts, near misses
+        other = rng.choice([b"evil.example", host + b".evil", host[:-1] or b"x", b"x" + host, host + b"@evil", host + b":81", host + b":8" ,
+                            b"evil@" + host, host.upper(), b"[::1]", host + b"%2f"])
+        return scheme.encode() + b"://" + other + tpath
+    if k == 15:
+        return (b"https" if scheme == "http" else b"http") + b"://" + auth + tpath                       # other scheme, same authority text
+    if k == 16:
+        return rng.choice([b"a:b", b":", b"http:", b"http:/", b"http://", b"http:///", b"http:///x", b"://x", b"x://", b"http:x", b"http:/x/y",
+                           b"urn:x:y", b"mailto:a@b", b"http:////" + auth + tpath, b"http:/" + auth + tpath, b"h:" + auth, b":" + auth + b"/"])
+    if k == 17:                                                                                          # truncation of a valid absolute URL
+        v = exact + tpath
+        return v[:rng.range(0, len(v))]
+    if k == 18:                                                                                          # one byte changed
+        v = bytearray(exact + tpath)
+        v[rng.below(len(v))] = rng.choice(b"/:@?#.%aA0 \t")
+        return bytes(v)
+    if k == 19:
+        v = exact + tpath
+        i = rng.below(len(v) + 1)
+        return v[:i] + rng.choice([b"/", b":", b"//", b"@"]) + v[i:]                                     # insertion
+    if k == 20:
+        return rng.bytes(rng.range(1, 10), b"ab:/.?#@%")
+    return rng.bytes(rng.range(1, 8), bytes(range(1, 256)))
+
+
+def p_cases(rng, n):
+    for _ in range(n):
+        m = rng.choice(REGISTERED) if rng.chance(3, 5) else rng.choice(["POST", "PUT", "DELETE"] + UNKNOWN)
+        if m in KNOWN_QUIET and rng.chance(2, 3):
+            m = "POST"
+        status = rng.choice(STATUSES) if rng.chance(1, 3) else rng.choice([200, 201, 204, 303, 399, 400])
+        scheme = rng.choice(["http", "http", "https"])
+        host = host_gen(rng)
+        port = rng.choice(["-", "-", "80", "443", "8080", "1", "65535", "3128"])
+        path = path_gen(rng)
+        loc = header_value(rng, scheme, host, port, path)
+        cloc = header_value(rng, scheme, host, port, path) if rng.chance(1, 2) else None
+        if rng.chance(1, 6):
+            loc, cloc = cloc, loc
+        yield p_line(m, status, scheme, host, port, path, loc, cloc)
+
+
+def url_text(rng):
+    scheme = rng.choice(["http", "https"])
+    host = host_gen(rng)
+    port = rng.choice(["-", "8080", "80"])
+    v = header_value(rng, scheme, host, port, b"/p")
+    return v if v is not None else scheme.encode() + b"://" + authority_of(scheme, host, port) + b"/p"
+
+
+def h_cases(rng, n):
+    for _ in range(n):
+        a = url_text(rng)
+        k = rng.below(6)
+        if k == 0:
+            b = a
+        elif k == 1:
+            b = url_text(rng)
+        elif k == 2:                       # same authority, other path
+            m = re.match(rb"^([a-z]+://[^/]*)", a)
+            b = (m.group(1) if m else a) + rng.choice([b"/z", b"/", b"", b"?q", b"/z/y"])
+        elif k == 3:
+            b = a[:rng.range(0, len(a))]
+        elif k == 4:
+            v = bytearray(a or b"x")
+            v[rng.below(len(v))] = rng.choice(b"/:@?#.aA0")
+            b = bytes(v)
+        else:
+            i = a.find(b":")
+            b = a[:i + 1] + b"/" * rng.range(0, 4) + a[i + 1:].lstrip(b"/") if i >= 0 else a + b":"
+        if 0 in a or 0 in b:
+            continue
+        if rng.chance(1, 2):
+            a, b = b, a
+        yield "H %s %s" % (hx(a), hx(b))
+
+
+def r_cases(rng, n):
+    for _ in range(n):
+        v = url_text(rng)
+        if rng.chance(1, 4):
+            v = rng.bytes(rng.range(0, 6), b"a:/?#.")
+        if 0 in v:
+            continue
+        yield "R %s" % hx(v)
+
+
+def a_cases(rng, n):
+    """canonical cases last: in the unfixed tree every one of them shows the addRelativePath defect"""
+    for _ in range(n):
+        rel = rng.choice([b"b", b"b/c", b"", b"x?y=1", b"..", b"./b", b"b%41", b"b c", rng.bytes(rng.range(1, 6), b"ab/.?%")])
+        yield "A %s %s %s %s %s" % (rng.choice(["http", "https"]), hx(host_gen(rng)), rng.choice(["-", "8080"]), hx(path_gen(rng)), hx(rel))
+
+
+def g(h, path, x=None, v=False, head=False):
+    return "%s/%s/%s/%s/%d" % ("H" if head else "G", h, hx(path), "." if x is None else hx(x), 1 if v else 0)
+
+
+def u(m, h, path, status, loc=None, cloc=None):
+    return "U/%s/%s/%s/%d/%s/%s" % (m, h, hx(path), status, "." if loc is None else hx(loc), "." if cloc is None else hx(cloc))
+
+
+def s_loc_value(rng, target, kind):
+    """a Location text naming (or nearly naming) /{S}/<target> on the origin"""
+    t = b"/{S}/" + target
+    if kind == "abs-exact":
+        return b"http://{O}" + t
+    if kind == "abs-path":
+        return t
+    if kind == "rel":
+        return None       # filled by the caller (depends on the request path)
+    if kind == "netpath":
+        return b"//{O}" + t
+    if kind == "upper-scheme":
+        return b"HTTP://{O}" + t
+    if kind == "fragment":
+        return b"http://{O}" + t + b"#f"
+    if kind == "dots":
+        return b"http://{O}/{S}/./" + target
+    if kind == "other-host":
+        return rng.choice([b"http://other.example", b"http://127.0.0.1.evil:{P}", b"http://127.0.0.2:{P}", b"http://localhost:{P}", b"http://x@evil:{P}"]) + t
+    if kind == "other-port":
+        return rng.choice([b"http://127.0.0.1:1{P}", b"http://127.0.0.1", b"http://127.0.0.1:80"]) + t
+    if kind == "userinfo":
+        return b"http://u@{O}" + t
+    raise ValueError(kind)
+
+
+CLEAN_KINDS = ["abs-exact", "abs-path", "other-host", "other-port", "abs-exact", "abs-path"]
+KNOWN_KINDS = ["rel", "netpath", "upper-scheme", "fragment", "dots", "userinfo"]
+
+
+def rel_ref(req_path, target):
+    """a dot-free relative-path reference from req_path's directory to target, or None"""
+    d = req_path[:req_path.rfind(b"/") + 1] if b"/" in req_path else b""
+    if b"?" in req_path.split(b"/")[-1] and b"/" in req_path.split(b"?", 1)[1]:
+        return None
+    if target.startswith(d) and target[len(d):] and not target[len(d):].startswith(b"/"):
+        return target[len(d):]
+    return None
+
+
+def s_scenario(rng, kinds, methods, quiet_ok=False):
+    t = rng.below(10)
+    m = rng.choice(methods)
+    if m in KNOWN_QUIET and not quiet_ok:
+        m = "POST"
+    status = rng.choice(STATUSES) if rng.chance(1, 2) else rng.choice([200, 201, 204, 303, 399, 400, 404])
+    h = "0" if rng.chance(3, 4) else rng.choice("123")
+    a = rng.choice(SUFFIXES)
+    if t <= 1:                                     # the request's own URL
+        warm = [g(h, a)] + ([g(h, a)] if rng.chance(1, 2) else [])
+        return "S " + " ".join(warm + [u(m, h, a, status)] + [g(h, a), g(h, a)])
+    if t <= 5:                                     # Location / Content-Location targets
+        b = rng.choice([s for s in SUFFIXES if s != a])
+        kind = rng.choice(kinds)
+        if kind == "rel":
+            v = rel_ref(a, b)
+            if v is None:
+                a, b = b"d/a", b"d/b"
+                v = b"b"
+        else:
+            v = s_loc_value(rng, b, kind)
+        other = s_loc_value(rng, rng.choice(SUFFIXES), rng.choice(CLEAN_KINDS)) if rng.chance(1, 4) else None
+        loc, cloc = (v, other) if rng.chance(1, 2) else (other, v)
+        steps = [g(h, a), g(h, b), g(h, b), u(m, h, a, status, loc, cloc), g(h, b), g(h, a)]
+        return "S " + " ".join(steps)
+    if t == 6:                                     # host spelling of the requests themselves
+        hs = [rng.choice("123") for _ in range(3)]
+        return "S " + " ".join([g(hs[0], a), g(hs[1], a), u(m, hs[2], a, status), g(hs[0], a)])
+    if t == 7:                                     # HEAD entries
+        return "S " + " ".join([g(h, a, head=True), g(h, a, head=True), g(h, a), g(h, a, head=True), u(m, h, a, status), g(h, a, head=True), g(h, a)])
+    if t == 8:                                     # two purging requests, different URLs
+        b = rng.choice([s for s in SUFFIXES if s != a])
+        return "S " + " ".join([g(h, a), g(h, b), u(m, h, a, status), g(h, b), u(rng.choice(["POST", "PUT", "DELETE"]), h, b, rng.choice([200, 404])), g(h, a), g(h, b)])
+    # random walk over two URLs
+    b = rng.choice([s for s in SUFFIXES if s != a])
+    steps = []
+    for _ in range(rng.range(4, 9)):
+        if rng.chance(2, 3):
+            steps.append(g(h, rng.choice([a, b]), head=rng.chance(1, 5)))
+        else:
+            tgt = rng.choice([a, b])
+            steps.append(u(rng.choice(methods) if quiet_ok else rng.choice(["POST", "PUT", "DELETE", "PATCH", "MKCOL", "OPTIONS"]), h, rng.choice([a, b]),
+                           rng.choice([200, 201, 404, 500]), s_loc_value(rng, tgt, rng.choice(CLEAN_KINDS)) if rng.chance(1, 2) else None))
+    return "S " + " ".join(steps)
+
+
+def vary_scenario(rng, purge):
+    """two variants of one URL, an unsafe request, both variants again"""
+    a = rng.choice([b"v/a", b"v/b?x=1"])
+    m = rng.choice(["POST", "PUT", "DELETE", "PATCH"]) if purge else rng.choice(["OPTIONS", "POST"])
+    status = 200 if purge else rng.choice([404, 500])
+    if not purge and m == "OPTIONS":
+        status = 200
+    x1, x2 = b"one", b"two"
+    return "S " + " ".join([g("0", a, x1, True), g("0", a, x2, True), g("0", a, x1, True), g("0", a, x2, True), u(m, "0", a, status),
+                            g("0", a, x1, True), g("0", a, x2, True), g("0", a, None, True)])
+
+
+def exhaustive_s():
+    """every e2e method x a status on each side of 400 x the clean Location kinds (thorough)"""
+    for m in E2E_METHODS:
+        for status in (200, 204, 303, 399, 400, 404):
+            yield "S " + " ".join([g("0", b"a"), g("0", b"a"), u(m, "0", b"a", status), g("0", b"a")])
+            for kind in ("abs-exact", "abs-path"):
+                if m in KNOWN_QUIET:
+                    continue
+                yield "S " + " ".join([g("0", b"d/a"), g("0", b"d/b"), u(m, "0", b"d/a", status, s_loc_value(None, b"d/b", kind)), g("0", b"d/b"), g("0", b"d/a")])
+                yield "S " + " ".join([g("0", b"d/a"), g("0", b"d/b"), u(m, "0", b"d/a", status, None, s_loc_value(None, b"d/b", kind)), g("0", b"d/b"), g("0", b"d/a")])
+
+
+def exhaustive_p():
+    """every registered method (+ unknown ones) x statuses around 400 x header presence (thorough)"""
+    for m in REGISTERED + UNKNOWN:
+        for status in (0, 100, 199, 200, 399, 400, 401, 599, 600, 999):
+            for loc in (None, b"/t", b"http://h.example/t", b"http://evil.example/t"):
+                for cloc in (None, b"/u"):
+                    yield p_line(m, status, "http", b"h.example", "-", b"/d/a", loc, cloc)
+
+
+def cases(rng, tier):
+    thorough = tier == "thorough"
+    out = []
+    out += list(p_cases(rng.fork("p"), 6000 if thorough else 700))
+    out += list(h_cases(rng.fork("h"), 6000 if thorough else 600))
+    out += list(r_cases(rng.fork("r"), 2000 if thorough else 200))
+    if thorough:
+        out += list(exhaustive_p())
+    rs = rng.fork("s")
+    for _ in range(900 if thorough else 110):
+        out.append(s_scenario(rs, CLEAN_KINDS, [m for m in E2E_METHODS if m not in KNOWN_QUIET]))
+    for _ in range(60 if thorough else 8):
+        out.append(vary_scenario(rs, purge=False))
+    if thorough:
+        out += list(exhaustive_s())
+    # cases in the region of the known findings come last and stay few
+    for _ in range(120 if thorough else 14):
+        out.append(s_scenario(rs, KNOWN_KINDS, E2E_METHODS, quiet_ok=True))
+    for _ in range(20 if thorough else 4):
+        out.append(vary_scenario(rs, purge=True))
+    out += list(a_cases(rng.fork("a"), 300 if thorough else 40))
+    return out
+
+
+def exhaustive(tier):
+    return tier == "thorough"
+
+
+def nontrivial(line, impl, model):
+    k = line[:1]
+    if k == "S":
+        steps = parse_steps(line) or []
+        obs = (impl or "").split(" ")[1:]
+        ui = [i for i, s in enumerate(steps) if s["k"] == "U"]
+        return bool(ui) and any(o.startswith("c") for o in obs[:ui[0]]) and len(steps) > ui[0] + 1
+    if k == "P":
+        return (impl or "").startswith("evict=") and impl != "evict=-"
+    return impl not in ("bad-op", "bad-components")
+
+
+def tag(line, impl, model):
+    k = line[:1]
+    if k == "S":
+        steps = parse_steps(line) or []
+        us = [s for s in steps if s["k"] == "U"]
+        if not us:
+            return "S no-unsafe"
+        s = us[0]
+        hdr = "loc" if s["loc"] is not None else "cloc" if s["cloc"] is not None else "none"
+        after = (impl or "").split(" ")[1:][steps.index(s) + 1:]
+        return "S %s %s hdr=%s vary=%s -> %s" % ("purging" if invalidating(s["m"]) else "safe", "<400" if s["status"] < 400 else ">=400", hdr,
+                                                 "yes" if any(t.get("v") for t in steps) else "no", "".join(o[:1] for o in after))
+    if k == "P":
+        f = p_fields(line)
+        if f is None:
+            return "P bad"
+        ev = parse_evict(impl or "")
+        n = "?" if ev is None else str(len({u_ for _m, u_ in ev}))
+        return "P %s %s urls=%s" % ("purging" if invalidating(f["m"]) else "safe", "<400" if f["status"] < 400 else ">=400", n if impl != "bad-components" else "bad-components")
+    return "%s %s" % (k, impl)
+
+
+MINIMISE_BUDGET = 30
+MAX_REPORT = 8
+
+
+def shrink(line):
+    k = line[:1]
+    w = line.split(" ")
+    if k == "S":
+        toks = w[1:]
+        for i in range(len(toks)):                      # drop one step
+            if len(toks) > 1:
+                yield "S " + " ".join(toks[:i] + toks[i + 1:])
+        for i, t in enumerate(toks):                    # drop a header of an unsafe step
+            f = t.split("/")
+            if f[0] == "U":
+                for j in (5, 6):
+                    if f[j] != ".":
+                        f2 = list(f)
+                        f2[j] = "."
+                        yield "S " + " ".join(toks[:i] + ["/".join(f2)] + toks[i + 1:])
+    elif k == "P" and len(w) == 9:
+        for j in (7, 8):
+            if w[j] != ".":
+                yield " ".join(w[:j] + ["."] + w[j + 1:])
+        for j in (6, 7, 8):
+            if w[j] not in (".", "-") and len(w[j]) > 2:
+                b = unhx(w[j])
+                for cut in (len(b) // 2, len(b) - 1):
+                    if j != 6 or cut >= 1:
+                        yield " ".join(w[:j] + [hx(b[:cut])] + w[j + 1:])
+    elif k in ("H", "R", "A"):
+        for j in range(1, len(w)):
+            if re.fullmatch(r"[0-9a-f]{4,}", w[j]):
+                b = unhx(w[j])
+                for cut in (len(b) // 2, len(b) - 1):
+                    yield " ".join(w[:j] + [hx(b[:cut])] + w[j + 1:])
+                yield " ".join(w[:j] + [hx(b[1:])] + w[j + 1:])
